@@ -35,6 +35,9 @@ structure D where
   p264 : C22.P264 := ⟨none, none⟩
   cfgM4V : Bytes := []
   valid : Bool := false
+  /-- always-available histories: what the life-of-stream spec has seen so far -/
+  life : Option LifeSt := none
+  lifeVideo : Bool := false
 
 abbrev Payload := List Bytes
 
@@ -153,8 +156,53 @@ def generated (d : D) (e : EncSt) (off : Nat) (pts : Int) (im : Impl) (plModel :
       | none => "-"
   (d', { model := if d.pending then "-" else model, spec := verdict v })
 
+def parseLifePkt (p : String) : Option (Nat × Nat × Nat) :=
+  match p.splitOn ":" with
+  | [a, b, c] => do pure ((← a.toNat?), (← b.toNat?), (← c.toNat?))
+  | _ => none
+
+def parseLifeUnit (u : String) : Option (Int × Nat × List (Nat × Nat × Nat)) :=
+  match u.splitOn "," with
+  | [pts, ssrc, pk] => do
+    let pkts ← (if pk == "-" then some [] else (pk.splitOn "/").mapM parseLifePkt)
+    pure ((← pts.toInt?), (← ssrc.toNat?), pkts)
+  | _ => none
+
+/-- `un=<pts>,<ssrc>,<seq>:<ts>:<len>/<seq>:<ts>:<len>|<unit>…` (or `un=-`) -/
+def parseLifeUnits (impl : String) : Option (List (Int × Nat × List (Nat × Nat × Nat))) :=
+  if !impl.startsWith "un=" then none
+  else
+    let body := (impl.drop 3).toString
+    if body == "-" then some [] else (body.splitOn "|").mapM parseLifeUnit
+
+/-- always-available ops: the model does not predict (filler units are paced by the wall clock); the
+life-of-stream spec is evaluated on every unit the reader received -/
+def stepLife (d : D) (impl : String) : D × DrvOut :=
+  -- an op that makes no sense at this point of the history (only produced by the shrinker) is not a finding
+  if impl == "bad-op" then (d, { model := "bad-op" }) else
+  match parseLifeUnits impl with
+  | none => (d, { model := "-", spec := "FAIL unparsable implementation answer: " ++ (impl.take 80).toString })
+  | some units =>
+    let rec go (st : Option LifeSt) : List (Int × Nat × List (Nat × Nat × Nat)) → Except String (Option LifeSt)
+      | [] => .ok st
+      | (pts, ssrc, pk) :: rest =>
+        match lifeUnit d.max d.lifeVideo st pts ssrc pk with
+        | .ok st' => go st' rest
+        | .error e => .error e
+    match go d.life units with
+    | .ok st => ({ d with life := st }, { model := "-" })
+    | .error e => (d, { model := "-", spec := "FAIL " ++ e })
+
 def step (d : D) (op impl : String) : D × DrvOut :=
   match words op with
+  | ["reset", codec, max, "aa"] =>
+    match max.toNat? with
+    | some max => ({ codec, max, mode := "aa", valid := true, lifeVideo := codec == "h264" }, { model := "ok" })
+    | none => ({}, { model := "bad-op" })
+  | "aafill" :: _ => stepLife d impl
+  | ["aapub"] => stepLife d impl
+  | ["aaoff"] => stepLife d impl
+  | "aau" :: _ => stepLife d impl
   | ["reset", codec, max, mode] =>
     match famOf codec, max.toNat? with
     | some fam, some max =>
